@@ -12,6 +12,16 @@ pub mod c07;
 pub mod c08;
 pub mod c09;
 pub mod c10;
+pub mod c11;
+pub mod c12;
+pub mod c13;
+pub mod c14;
+pub mod c15;
+pub mod c16;
+pub mod c17;
+pub mod c18;
+pub mod c19;
+pub mod c20;
 pub mod gcase;
 
 pub struct Meta {
@@ -20,7 +30,35 @@ pub struct Meta {
     pub assumptions: Vec<&'static str>,
 }
 
-const IDS: &[&str] = &["C01", "C02", "C03", "C04", "C05", "C06", "C07", "C08", "C09", "C10"];
+const IDS: &[&str] = &["C01", "C02", "C03", "C04", "C05", "C06", "C07", "C08", "C09", "C10", "C11", "C12", "C13", "C14", "C15", "C16", "C17", "C18", "C19", "C20"];
+
+/// Per-property multiplier applied to every job's case counts (both tiers), chosen from measured
+/// per-case costs so that the quick tier does roughly 10-30 s of fixed work on 16 cores.
+pub fn mult(id: &str) -> f64 {
+    match id {
+        "C01" => 100.0,
+        "C02" => 60.0,
+        "C03" => 80.0,
+        "C04" => 40.0,
+        "C05" => 100.0,
+        "C06" => 40.0,
+        "C07" => 200.0,
+        "C08" => 300.0,
+        "C09" => 30.0,
+        "C10" => 60.0,
+        "C11" => 80.0,
+        "C12" => 100.0,
+        "C13" => 100.0,
+        "C14" => 80.0,
+        "C15" => 100.0,
+        "C16" => 100.0,
+        "C17" => 20.0,
+        "C18" => 20.0,
+        "C19" => 5.0,
+        "C20" => 40.0,
+        _ => 1.0,
+    }
+}
 
 pub fn all_ids() -> Vec<&'static str> {
     IDS.to_vec()
@@ -38,6 +76,16 @@ pub fn jobs(id: &str, env: &Env) -> Vec<Box<dyn Job>> {
         "C08" => c08::jobs(env),
         "C09" => c09::jobs(env),
         "C10" => c10::jobs(env),
+        "C11" => c11::jobs(env),
+        "C12" => c12::jobs(env),
+        "C13" => c13::jobs(env),
+        "C14" => c14::jobs(env),
+        "C15" => c15::jobs(env),
+        "C16" => c16::jobs(env),
+        "C17" => c17::jobs(env),
+        "C18" => c18::jobs(env),
+        "C19" => c19::jobs(env),
+        "C20" => c20::jobs(env),
         _ => Vec::new(),
     }
 }
@@ -60,6 +108,16 @@ pub fn meta(id: &str) -> Meta {
         "C08" => (c08::RULE, c08::TECHNIQUE),
         "C09" => (c09::RULE, c09::TECHNIQUE),
         "C10" => (c10::RULE, c10::TECHNIQUE),
+        "C11" => (c11::RULE, c11::TECHNIQUE),
+        "C12" => (c12::RULE, c12::TECHNIQUE),
+        "C13" => (c13::RULE, c13::TECHNIQUE),
+        "C14" => (c14::RULE, c14::TECHNIQUE),
+        "C15" => (c15::RULE, c15::TECHNIQUE),
+        "C16" => (c16::RULE, c16::TECHNIQUE),
+        "C17" => (c17::RULE, c17::TECHNIQUE),
+        "C18" => (c18::RULE, c18::TECHNIQUE),
+        "C19" => (c19::RULE, c19::TECHNIQUE),
+        "C20" => (c20::RULE, c20::TECHNIQUE),
         _ => ("", ""),
     };
     Meta {
